@@ -1,0 +1,35 @@
+//go:build verif
+
+package shaping
+
+import (
+	"github.com/go-text/typesetting/di"
+	"golang.org/x/image/math/fixed"
+)
+
+// Verification hooks (property C12): access to the unexported geometry helpers of Output
+// and to the letter spacing bookkeeping of Glyph.
+
+// VerifLetterSpacing returns the unexported startLetterSpacing and endLetterSpacing fields.
+func (g Glyph) VerifLetterSpacing() (start, end fixed.Int26_6) {
+	return g.startLetterSpacing, g.endLetterSpacing
+}
+
+// VerifSetLetterSpacing sets the unexported startLetterSpacing and endLetterSpacing fields.
+func (g *Glyph) VerifSetLetterSpacing(start, end fixed.Int26_6) {
+	g.startLetterSpacing, g.endLetterSpacing = start, end
+}
+
+// VerifSideways runs (*Output).sideways.
+func (out *Output) VerifSideways() { out.sideways() }
+
+// VerifTrimStartLetterSpacing runs (*Output).trimStartLetterSpacing.
+func (out *Output) VerifTrimStartLetterSpacing() { out.trimStartLetterSpacing() }
+
+// VerifAdvanceSpaceAware runs (*Output).advanceSpaceAware.
+func (out *Output) VerifAdvanceSpaceAware(paragraphDir di.Direction) fixed.Int26_6 {
+	return out.advanceSpaceAware(paragraphDir)
+}
+
+// VerifScaleShift is the scale shift Shape applies to the font size.
+const VerifScaleShift = scaleShift
